@@ -14,6 +14,7 @@ FAMILIES = {
     "hp": ("hugeParam", "sizeThreshold", lambda n, t: n >= t, "size in bytes that makes the warning trigger"),
     "rv": ("rangeValCopy", "sizeThreshold", lambda n, t: n >= t, "size in bytes that makes the warning trigger"),
     "re": ("rangeExprCopy", "sizeThreshold", lambda n, t: n >= t, "size in bytes that makes the warning trigger"),
+    "rvl": ("rangeValCopy", "sizeThreshold", lambda n, t: n >= t, "size in bytes that makes the warning trigger"),
     "tr": ("tooManyResultsChecker", "maxResults", lambda n, t: n > t, "maximum number of results"),
     "nr": ("nestingReduce", "bodyWidth", lambda n, t: n >= t, "min number of statements inside a branch to trigger a warning"),
     "ie": ("ifElseChain", "minThreshold", lambda n, t: n >= t, "min number of if-else blocks that makes the warning trigger"),
@@ -52,6 +53,9 @@ def make_pkg(ws):
         add("func hp_%d(a [%d]byte) { //@\n}\n" % (n, n), "hp", n)
         add("func rv_%d(xs []struct{ a [%d]byte }) {\n\tfor _, x := range xs { //@\n\t\t_ = x\n\t}\n}\n" % (n, n), "rv", n)
         add("func re_%d() {\n\tvar arr [%d]byte\n\tfor _, x := range arr { //@\n\t\t_ = x\n\t}\n}\n" % (n, n), "re", n)
+    # function-local named types that share one name (distinct types, equal spelling, different sizes)
+    for n in NS:
+        add("func rvl_%d() {\n\ttype rec struct{ a [%d]byte }\n\tvar xs []rec\n\tfor _, x := range xs { //@\n\t\t_ = x\n\t}\n}\n" % (n, n), "rvl", n)
     for n in SMALL:
         if n >= 1:
             add("func tr_%d() (%s) { //@\n\treturn %s\n}\n" % (n, ", ".join(["int"] * n), ", ".join(["0"] * n)), "tr", n)
@@ -159,7 +163,7 @@ def run(tier):
         vlib.harness_fail("sizeof program: " + se[-500:])
     sizeof = {l.split()[0]: (int(l.split()[1]), int(l.split()[2])) for l in so.splitlines() if l.strip()}
     # thresholds to try per family
-    tvals = {"hp": NS + [0], "rv": NS + [0], "re": NS + [0], "tr": SMALL + [9], "nr": SMALL + [9], "ie": SMALL + [9], "cc": list(range(6, 26))}
+    tvals = {"hp": NS + [0], "rv": NS + [0], "re": NS + [0], "rvl": NS, "tr": SMALL + [9], "nr": SMALL + [9], "ie": SMALL + [9], "cc": list(range(6, 26))}
     if tier == "quick":
         tvals = {k: (v if k == "cc" else [t for i, t in enumerate(v) if i % 2 == 0 or t in (1, 2, 3, 4, 5, 7, 9, 11, 80, 128, 512)]) for k, v in tvals.items()}
     vectors = {}
